@@ -1,0 +1,127 @@
+//go:build verif
+
+package turtle
+
+import (
+	"fmt"
+	"io"
+
+	"github.com/dpb587/rdfkit-go/encoding/turtle/internal"
+)
+
+// Hooks for the verification harness in /verif (build tag "verif"): thin exported aliases of
+// unexported functions so that they can be tabulated over their whole domain (rune classifiers,
+// escape selectors) or run on chosen inputs (formatters, token producers).
+
+func VerifIriMustEscapeRune(r rune, ascii bool) uint {
+	return uint(iriMustEscapeRune(r, ascii))
+}
+
+func VerifLiteralStringMustEscapeRune(r rune, ascii bool) uint {
+	return uint(literalStringMustEscapeRune(r, ascii))
+}
+
+func VerifPrefixLocalNameMustEscapeRune(r rune, pos int, length int) uint {
+	return uint(prefixLocalNameMustEscapeRune(r, pos, length))
+}
+
+func VerifIsRunePNCharsBase(r rune) bool { return internal.IsRune_PN_CHARS_BASE(r) }
+func VerifIsRunePNCharsU(r rune) bool    { return internal.IsRune_PN_CHARS_U(r) }
+func VerifIsRunePNChars(r rune) bool     { return internal.IsRune_PN_CHARS(r) }
+func VerifHexDecode(r rune) (rune, bool) { return internal.HexDecode(r) }
+
+func VerifFormatIRI(v string, ascii bool) string { return formatIRI(v, ascii) }
+
+func VerifFormatLiteralLexicalForm(v string, ascii bool) string {
+	return formatLiteralLexicalForm(v, ascii)
+}
+
+func VerifFormat_PN_LOCAL(v string) (string, bool) { return format_PN_LOCAL(v) }
+
+func VerifBareLiteralDatatype(s string) (string, bool) {
+	dt, ok := bareLiteralDatatype(s)
+
+	return string(dt), ok
+}
+
+// VerifProduce reads the first rune from rd and runs the named token producer on it, as the
+// statement scanners do. It returns the token's values, the runes left in the decoder's buffer
+// and reader afterwards, and the producer's error.
+func VerifProduce(kind string, rd io.Reader) (values []string, rest string, err error) {
+	r, err := NewDecoder(rd)
+	if err != nil {
+		return nil, "", err
+	}
+
+	r0, err := r.buf.NextRune()
+	if err != nil {
+		return nil, "", err
+	}
+
+	switch kind {
+	case "iriref":
+		t, err := r.produceIRIREF(r0)
+		if err != nil {
+			return nil, "", err
+		}
+
+		values = []string{t.Decoded}
+	case "string":
+		t, err := r.produceString(r0)
+		if err != nil {
+			return nil, "", err
+		}
+
+		values = []string{t.Decoded}
+	case "pname_ns":
+		t, err := r.producePNAME_NS(r0)
+		if err != nil {
+			return nil, "", err
+		}
+
+		values = []string{t.Decoded}
+	case "pname":
+		t, err := r.producePrefixedName(r0)
+		if err != nil {
+			return nil, "", err
+		}
+
+		values = []string{t.NamespaceDecoded, t.LocalDecoded}
+	case "bnode":
+		t, err := r.produceBlankNode(r0)
+		if err != nil {
+			return nil, "", err
+		}
+
+		values = []string{t.Decoded}
+	case "langtag":
+		t, err := r.produceLANGTAG(r0)
+		if err != nil {
+			return nil, "", err
+		}
+
+		values = []string{t.Decoded}
+	case "numeric":
+		t, err := r.produceNumericLiteral(r0)
+		if err != nil {
+			return nil, "", err
+		}
+
+		values = []string{t.GrammarRule.String(), t.Decoded}
+	default:
+		return nil, "", fmt.Errorf("unknown token kind %q", kind)
+	}
+
+	var left []rune
+
+	for {
+		rn, err := r.buf.NextRune()
+		if err != nil {
+			break
+		}
+
+		left = append(left, rn.Rune)
+	}
+
+	return values, string(left), nil
+}
